@@ -991,7 +991,15 @@ func (h *c20H) commit(op string) string {
 	h.b.WaitForCommit(h.b.Latest())
 	if flush {
 		triggerTrackerFlush(h.t, h.a)
-		h.a.trackers.waitAccountsWriting()
+	}
+	// No tracker commit may run in the background while the next block is evaluated: the in-memory sqlite databases use
+	// a shared cache with table-level locks, and a lookup that meets the committing transaction gives up after 1000
+	// immediate retries ("database table is locked") — an artefact of the in-memory test databases (on-disk ones use WAL),
+	// not of the evaluator.  The block queue's syncer signals WaitForCommit BEFORE it schedules the tracker commit, so the
+	// commit is scheduled here synchronously (the syncer's own later call then finds nothing to do) and awaited.
+	for _, l := range []*Ledger{h.a, h.b} {
+		l.notifyCommit(l.Latest())
+		l.trackers.waitAccountsWriting()
 	}
 	h.haveBlk = false
 	h.vb = nil
